@@ -134,21 +134,26 @@ namespace
   // the inputs of the class are counted as excluded instead of producing one crash per case
   struct Hazards
   {
-    int eq_arrayfree = 0;   // operator== of two array-free matrices with rows*columns > 0
+    int eq_csr = 0, eq_bcsr = 0, eq_cscr = 0; // operator== of two array-free matrices with rows*columns > 0
     int null_array = 0;     // serialising a container that holds a size-0 (nullptr) array
     int dv_exp_len0 = 0;    // DenseVector fm_exp of length 0
     int dm_mtx_0x0 = 0;     // DenseMatrix 0x0 fm_mtx
     int sv_mtx_empty = 0;   // SparseVector without entries fm_mtx
-    int mtx_arrayfree = 0;  // fm_mtx write of an array-free CSR/BCSR matrix with rows
+    int mtx_csr = 0, mtx_bcsr = 0; // fm_mtx write of an array-free CSR/BCSR matrix with rows
     int svb_file = 0;       // SparseVectorBlocked::write_out(mode, filename)
+    int exp_null = 0;       // sanitizer build only: fm_exp reader of a length-0 vector binds &data[0] of an empty std::vector
   };
   Hazards hz;
-  const char* KEY_EQ = "operator== of two entry-free (array-free) CSR/BCSR/CSCR matrices with rows*columns>0 dereferences the missing row pointer";
+  const char* KEY_EQ_CSR = "operator== of two entry-free (array-free) SparseMatrixCSR matrices with rows*columns>0 dereferences the missing row pointer";
+  const char* KEY_EQ_BCSR = "operator== of two entry-free (array-free) SparseMatrixBCSR matrices with rows*columns>0 dereferences the missing row pointer";
+  const char* KEY_EQ_CSCR = "operator== of two entry-free (array-free) SparseMatrixCSCR matrices with rows*columns>0 dereferences the missing row pointer";
   const char* KEY_NULL = "serialising a container that holds a size-0 array aborts in MemoryPool::increase_memory(nullptr) (e.g. CSR(2,2,0), CSR read from a MatrixMarket file without entries)";
   const char* KEY_DVEXP = "DenseVector::write_out(fm_exp) of a length-0 vector throws std::out_of_range (_elements.at(0))";
   const char* KEY_DM0 = "DenseMatrix default-constructed (0x0): fm_mtx cannot be read back (constructor asserts rows,columns != 0)";
   const char* KEY_SVMTX = "SparseVector without entries: fm_mtx cannot be read back (array constructor with empty arrays / size 0)";
-  const char* KEY_MTXAF = "fm_mtx write_out of an entry-free (array-free) CSR/BCSR matrix with rows walks the missing row pointer";
+  const char* KEY_MTX_CSR = "fm_mtx write_out of an entry-free (array-free) SparseMatrixCSR matrix with rows walks the missing row pointer";
+  const char* KEY_MTX_BCSR = "fm_mtx write_out of an entry-free (array-free) SparseMatrixBCSR matrix with rows walks the missing row pointer";
+  const char* KEY_EXPNULL = "fm_exp read of a length-0 DenseVector/DenseVectorBlocked binds &data[0] of an empty std::vector (UBSan only, benign)";
   const char* KEY_SVBFILE = "SparseVectorBlocked::write_out(mode, filename) puts a 16 MiB stream buffer on the stack (stack overflow)";
 
   struct Caps
@@ -212,7 +217,8 @@ namespace
     bool next_null = false;
     for(auto z : fn.esz) if(z == 0) next_null = true;
     for(auto z : fn.isz) if(z == 0) next_null = true;
-    eq_safe = !(array_free && hz.eq_arrayfree != 0);
+    const int hz_eq = kind.find("SparseMatrixCSR") != std::string::npos ? hz.eq_csr : (kind.find("SparseMatrixBCSR") != std::string::npos ? hz.eq_bcsr : hz.eq_cscr);
+    eq_safe = !(array_free && hz_eq != 0);
     const bool skip_binary = has_null_array && hz.null_array != 0;
     if(skip_binary) c.excluded("binary modes of a container holding a size-0 array (reported once as finding)");
     if(next_null && hz.null_array != 0) { xn = MK_::make(v, rnd, dn); fn = vfp(xn); } // keep the two-in-one-stream test alive
@@ -323,9 +329,10 @@ namespace
       c.count("text_round_trips");
     };
     bool mtx_ok = caps.mtx_rw, exp_ok = caps.exp_rw;
-    if(mtx_ok && array_free_rows && hz.mtx_arrayfree != 0) { mtx_ok = false; c.excluded("fm_mtx of an array-free matrix with rows (reported once as finding)"); }
+    if(mtx_ok && array_free_rows && hz.mtx_csr != 0) { mtx_ok = false; c.excluded("fm_mtx of an array-free matrix with rows (reported once as finding)"); }
     if(mtx_ok && kind.find("DenseMatrix") != std::string::npos && f0.sidx.size() >= 2 && f0.sidx[1] == 0 && hz.dm_mtx_0x0 != 0) { mtx_ok = false; c.excluded("fm_mtx of the 0x0 DenseMatrix (reported once as finding)"); }
     if(mtx_ok && kind.find("SparseVector<") != std::string::npos && f0.sidx.size() >= 2 && f0.sidx[1] == 0 && hz.sv_mtx_empty != 0) { mtx_ok = false; c.excluded("fm_mtx of a SparseVector without entries (reported once as finding)"); }
+    if(exp_ok && f0.sidx.size() >= 1 && f0.sidx[0] == 0 && hz.exp_null != 0) { exp_ok = false; c.excluded("fm_exp of a length-0 vector under UBSan (reported once as finding)"); }
     if(exp_ok && kind.find("DenseVector<") != std::string::npos && f0.sidx.size() >= 1 && f0.sidx[0] == 0 && hz.dv_exp_len0 != 0) { exp_ok = false; c.excluded("fm_exp of a length-0 DenseVector (reported once as finding)"); }
     if(mtx_ok) op(c, kind + " fm_mtx", [&]{ text_rt(FileMode::fm_mtx, "fm_mtx"); });
     if(exp_ok) op(c, kind + " fm_exp", [&]{ text_rt(FileMode::fm_exp, "fm_exp"); });
@@ -362,7 +369,7 @@ namespace
   {
     std::string d;
     auto x = MakeBCSR<DT_, IT_, BH_, BW_>::make(v, false, d);
-    if(x.row_ptr() == nullptr && x.rows() > 0 && hz.mtx_arrayfree != 0) { c.excluded("fm_mtx of an array-free matrix with rows (reported once as finding)"); return; }
+    if(x.row_ptr() == nullptr && x.rows() > 0 && hz.mtx_bcsr != 0) { c.excluded("fm_mtx of an array-free matrix with rows (reported once as finding)"); return; }
     std::stringstream ss;
     x.write_out(FileMode::fm_mtx, ss);
     SparseMatrixCSR<DT_, IT_> y(FileMode::fm_mtx, ss);
@@ -488,11 +495,13 @@ int main(int argc, char** argv)
   if(std::getenv("C05_TRIAGE") != nullptr) { spec.max_report = 100000; spec.max_fail_per_worker = 1000000; }
 
   return verif::run(spec, argc, argv, [&](verif::Ctx& c) {
-    g_triage = c.replaying || std::getenv("C05_TRIAGE") != nullptr;
+    g_triage = (c.replaying && std::getenv("C05_NOFORK") == nullptr) || std::getenv("C05_TRIAGE") != nullptr;
     std::cout.rdbuf(nullptr); // SparseMatrixBanded::write_out prints a warning to std::cout for every non-double matrix
     typedef std::uint64_t u64; typedef std::uint32_t u32;
     // ---- probes of the defect classes
-    hz.eq_arrayfree = probe([]{ SparseMatrixCSR<double, u64> a(2, 2), b(2, 2); SparseMatrixBCSR<double, u64, 2, 2> d(1, 1), e(1, 1); SparseMatrixCSCR<double, u64> f(2, 1), g(2, 1); return (a == b) && (d == e) && (f == g); });
+    hz.eq_csr = probe([]{ SparseMatrixCSR<double, u64> a(2, 2), b(2, 2); return (a == b); });
+    hz.eq_bcsr = probe([]{ SparseMatrixBCSR<double, u64, 2, 2> d(1, 1), e(1, 1); return (d == e); });
+    hz.eq_cscr = probe([]{ SparseMatrixCSCR<double, u64> f(2, 1), g(2, 1); return (f == g); });
     hz.null_array = probe([]{
       SparseMatrixCSR<double, u64> a(2, 2, Index(0)); a.row_ptr()[0] = a.row_ptr()[1] = a.row_ptr()[2] = 0;
       std::vector<char> buf = a.serialize(SerialConfig(false, false));
@@ -506,13 +515,24 @@ int main(int argc, char** argv)
     hz.sv_mtx_empty = probe([]{ SparseVector<double, u64> a(3); std::stringstream ss; a.write_out(FileMode::fm_mtx, ss); SparseVector<double, u64> b(FileMode::fm_mtx, ss);
       SparseVector<double, u64> a0; std::stringstream s0; a0.write_out(FileMode::fm_mtx, s0); SparseVector<double, u64> b0(FileMode::fm_mtx, s0);
       return b.size() == 3 && b.used_elements() == 0 && b0.size() == 0; });
-    hz.mtx_arrayfree = probe([]{ SparseMatrixCSR<double, u64> a(2, 3); std::stringstream ss; a.write_out(FileMode::fm_mtx, ss); SparseMatrixCSR<double, u64> b(FileMode::fm_mtx, ss);
-      SparseMatrixBCSR<double, u64, 2, 2> d(1, 1); std::stringstream s2; d.write_out(FileMode::fm_mtx, s2);
+    hz.mtx_csr = probe([]{ SparseMatrixCSR<double, u64> a(2, 3); std::stringstream ss; a.write_out(FileMode::fm_mtx, ss); SparseMatrixCSR<double, u64> b(FileMode::fm_mtx, ss);
+      std::stringstream s3; a.write_out(FileMode::fm_mtx, s3, true);
       return b.rows() == 2 && b.columns() == 3 && b.used_elements() == 0; });
+    hz.mtx_bcsr = probe([]{ SparseMatrixBCSR<double, u64, 2, 2> d(1, 1); std::stringstream s2; d.write_out(FileMode::fm_mtx, s2); SparseMatrixCSR<double, u64> b(FileMode::fm_mtx, s2);
+      return b.rows() == 2 && b.columns() == 2 && b.used_elements() == 0; });
     hz.svb_file = probe([]{ SparseVectorBlocked<double, u64, 2> a(3); const std::string fn = scratch_file("probe"); a.write_out(FileMode::fm_binary, fn); SparseVectorBlocked<double, u64, 2> b(FileMode::fm_binary, fn); unlink(fn.c_str()); return b.size() == 3; });
+#ifdef VERIF_ASAN
+    hz.exp_null = probe([]{ std::stringstream s1(""), s2(""); DenseVector<double, u64> a(FileMode::fm_exp, s1); DenseVectorBlocked<double, u64, 2> b(FileMode::fm_exp, s2); return a.size() == 0 && b.size() == 0; });
+#endif
+    if(c.want())
     {
-      const std::pair<int, const char*> pr[7] = {{hz.eq_arrayfree, KEY_EQ}, {hz.null_array, KEY_NULL}, {hz.dv_exp_len0, KEY_DVEXP}, {hz.dm_mtx_0x0, KEY_DM0}, {hz.sv_mtx_empty, KEY_SVMTX}, {hz.mtx_arrayfree, KEY_MTXAF}, {hz.svb_file, KEY_SVBFILE}};
-      for(int k = 0; k < 7; ++k)
+      c.desc([&]{ return std::string("probe (sanitizer build only): ") + KEY_EXPNULL; });
+      c.check(hz.exp_null == 0, KEY_EXPNULL, [&]{ return std::string(probe_txt(hz.exp_null)); });
+    }
+    {
+      const std::pair<int, const char*> pr[10] = {{hz.eq_csr, KEY_EQ_CSR}, {hz.eq_bcsr, KEY_EQ_BCSR}, {hz.eq_cscr, KEY_EQ_CSCR}, {hz.null_array, KEY_NULL}, {hz.dv_exp_len0, KEY_DVEXP},
+        {hz.dm_mtx_0x0, KEY_DM0}, {hz.sv_mtx_empty, KEY_SVMTX}, {hz.mtx_csr, KEY_MTX_CSR}, {hz.mtx_bcsr, KEY_MTX_BCSR}, {hz.svb_file, KEY_SVBFILE}};
+      for(int k = 0; k < 10; ++k)
       {
         if(!c.want()) continue;
         c.desc([&]{ return std::string("probe of a known defect class: ") + pr[k].second; });
